@@ -7,6 +7,7 @@ reference and the child re-imports it.  Use through functools.partial(work, spec
 spec = {
   'outcome': 'return' | 'raise' | 'unpicklable' | 'sysexit' | 'hardexit' | 'block',
   'n': int,                 # value returned / exit status
+  'exc': str,               # 'raise': which exception class (see EXC_KINDS; default 'worker')
   'started': path | None,   # written (pid) when the function body starts
   'dur': float,             # seconds of work before the outcome (time.sleep in 5 ms slices)
   'log': int,               # number of log records emitted (logging.getLogger('verif.worker'))
@@ -25,6 +26,70 @@ import time
 
 class WorkerError(Exception):
     """The exception raised by the 'raise' outcome (picklable, importable)."""
+
+
+class WorkerBaseError(BaseException):
+    """A custom BaseException subclass (not an Exception): picklable, importable."""
+
+
+class UnpicklableError(Exception):
+    """Cannot be pickled in the child (it holds a lambda)."""
+
+    def __init__(self, n):
+        super().__init__(n)
+        self.hook = lambda: n
+
+
+class UnloadableError(Exception):
+    """Pickles in the child but cannot be rebuilt in the parent (two-argument constructor)."""
+
+    def __init__(self, a, b):
+        super().__init__(a)
+        self.b = b
+
+
+# kind -> qualified class name the parent must see in `raised`
+EXC_KINDS = {
+    'worker': 'harness.proc_workers.WorkerError',
+    'value': 'builtins.ValueError',
+    'kbint': 'builtins.KeyboardInterrupt',
+    'aio_cancelled': 'asyncio.exceptions.CancelledError',
+    'cf_cancelled': 'concurrent.futures._base.CancelledError',
+    'genexit': 'builtins.GeneratorExit',
+    'custom_base': 'harness.proc_workers.WorkerBaseError',
+    'stopiter': 'builtins.StopIteration',
+    'stopaiter': 'builtins.StopAsyncIteration',
+    'unpicklable_exc': 'harness.proc_workers.UnpicklableError',
+    'unloadable_exc': 'harness.proc_workers.UnloadableError',
+}
+
+
+def make_exc(kind: str, n: int) -> BaseException:
+    if kind == 'worker':
+        return WorkerError(n)
+    if kind == 'value':
+        return ValueError(n)
+    if kind == 'kbint':
+        return KeyboardInterrupt(n)
+    if kind == 'aio_cancelled':
+        import asyncio
+        return asyncio.CancelledError(n)
+    if kind == 'cf_cancelled':
+        import concurrent.futures
+        return concurrent.futures.CancelledError(n)
+    if kind == 'genexit':
+        return GeneratorExit(n)
+    if kind == 'custom_base':
+        return WorkerBaseError(n)
+    if kind == 'stopiter':
+        return StopIteration(n)
+    if kind == 'stopaiter':
+        return StopAsyncIteration(n)
+    if kind == 'unpicklable_exc':
+        return UnpicklableError(n)
+    if kind == 'unloadable_exc':
+        return UnloadableError(n, n)
+    raise ValueError(kind)
 
 
 def init(marker: str) -> None:
@@ -72,7 +137,7 @@ def work(spec: dict):
     if out == 'return':
         return ('value', n)
     if out == 'raise':
-        raise WorkerError(n)
+        raise make_exc(spec.get('exc', 'worker'), n)
     if out == 'unpicklable':
         return lambda: n          # a lambda cannot be pickled
     if out == 'sysexit':
